@@ -14,7 +14,9 @@
 //     by-name reference spelling old's name spells new's name; raw-cell dependencies on old
 //     designate new (if new is a raw cell) or at least no longer designate old;
 //   * remap_tags(m): every tag t of a polygon / path element / label becomes m(t) simultaneously
-//     (keys absent from m map to themselves); nothing else changes;
+//     (keys absent from m map to themselves); nothing else changes; m is the abstract map left by
+//     the history of set/del calls that built the TagMap (two of the four tables withdraw colliding
+//     keys again, so a TagMap whose deletions leave stale entries retags shapes it must not touch);
 //   * copy_from: the copy has equal content; shallow copies share the element / cell objects, deep
 //     copies share nothing they own (DESIGN.md 0.1: by-pointer references of a deep library copy
 //     only have to designate a cell of the same name as in the source);
@@ -111,10 +113,54 @@ struct World {
 
 static const Tag T10 = make_tag(1, 0), T20 = make_tag(2, 0);
 static std::string tagstr(Tag t) { return fmt("(%u,%u)", get_layer(t), get_type(t)); }
-static Tag map_tag(int m, Tag t) {  // the two remapping tables of the alphabet, as a function
-    if (t == T10) return T20;
-    if (m == 1 && t == T20) return T10;
-    return t;
+// Remapping tables.  A table is a HISTORY of TagMap operations (set(k,k) withdraws a mapping, as
+// documented in tagmap.hpp); the real TagMap is built by executing the history, the model is the
+// abstract map after the history.  TA, TB, TC are tags carried by the cells' path elements and
+// labels that share one home slot (hash(Tag) % 8, searched from gdstk's own hash at start-up) in
+// the initial capacity-8 table, so that withdrawing TA and then the displaced TB exercises the
+// back-shift of TagMap::del while a third mapping remains.
+static Tag TA, TB, TC;
+static const Tag VX = make_tag(101, 3), VY = make_tag(102, 3), VZ = make_tag(103, 3), VY2 = make_tag(104, 3);
+struct TStep { bool del; Tag k, v; };
+static const int NTABLES = 4;
+static std::vector<TStep> table_steps(int m) {
+    switch (m) {
+        case 0: return {{false, T10, T20}};
+        case 1: return {{false, T10, T20}, {false, T20, T10}};
+        case 2: return {{false, TA, VX}, {false, TB, VY}, {false, TC, VZ}, {false, TA, TA}, {false, TB, TB}};  // only TC->VZ remains
+        default: return {{false, TA, VX}, {false, TB, VY}, {true, TA, 0}, {false, TB, VY2}};                     // only TB->VY2 remains
+    }
+}
+static void build_table(int m, TagMap& tm) {
+    for (auto& st : table_steps(m)) {
+        if (st.del) tm.del(st.k);
+        else tm.set(st.k, st.v);
+    }
+}
+static std::string table_name(int m) {
+    std::string s = "[";
+    for (auto& st : table_steps(m)) s += (s.size() > 1 ? "," : "") + (st.del ? "del" + tagstr(st.k) : "set" + tagstr(st.k) + "->" + tagstr(st.v));
+    return s + "]";
+}
+static Tag map_tag(int m, Tag t) {  // the abstract map after the table's history, as a function
+    std::map<Tag, Tag> am;
+    for (auto& st : table_steps(m)) {
+        if (st.del || st.k == st.v) am.erase(st.k);
+        else am[st.k] = st.v;
+    }
+    auto f = am.find(t);
+    return f == am.end() ? t : f->second;
+}
+static void find_colliding_tags() {
+    // three tags with home slot 7 of 8 (the probe chain wraps to slots 0 and 1), none already in use
+    std::vector<Tag> found;
+    for (uint32_t t = 0; t < 8 && found.size() < 3; t++)
+        for (uint32_t l = 3; l < 100 && found.size() < 3; l++) {
+            Tag c = make_tag(l, t);
+            if (hash(c) % 8 == 7) found.push_back(c);
+        }
+    if (found.size() < 3) { fprintf(stderr, "no colliding tags found\n"); exit(2); }
+    TA = found[0]; TB = found[1]; TC = found[2];
 }
 
 // ------------------------------------------------------------------------------------ real-side helpers
@@ -260,9 +306,9 @@ static int new_cell(World& w, const char* name, int variant, int serial) {
     c->init(name);
     double d = 10.0 * serial;
     Tag tp = variant ? T20 : T10;
-    Tag tf[2] = {variant ? T10 : T20, make_tag(3, 2)};
-    Tag tr = variant ? make_tag(5, 1) : make_tag(4, 0);
-    Tag tl = variant ? T10 : T20;
+    Tag tf[2] = {variant ? T10 : T20, TA};
+    Tag tr = variant ? TC : TB;
+    Tag tl = variant ? TB : T20;
     Polygon* p = (Polygon*)allocate_clear(sizeof(Polygon));
     *p = rectangle(Vec2{d, 0}, Vec2{d + 2, 1.0 + serial}, tp);
     set_property(p->properties, "pp", (int64_t)serial, false);
@@ -491,8 +537,8 @@ struct GraphSys {
         ops.push_back({RENAME_NAME, 1, 0}); ops.push_back({RENAME_NAME, 1, 2});
         ops.push_back({RENAME_NAME, 2, 0}); ops.push_back({RENAME_NAME, 3, 0});
         for (int o = 0; o < MAXC + MAXR + 2; o++) for (int p = 0; p < 4; p++) ops.push_back({REPLACE, o, p});
-        for (int m = 0; m < 2; m++) ops.push_back({REMAP_LIB, m, 0});
-        for (int m = 0; m < 2; m++) ops.push_back({REMAP_CELL, 0, m});
+        for (int m = 0; m < NTABLES; m++) ops.push_back({REMAP_LIB, m, 0});
+        for (int m = 0; m < NTABLES; m++) ops.push_back({REMAP_CELL, 0, m});
         for (int d = 0; d < 2; d++) ops.push_back({COPY_LIB, d, 0});
         for (int i = 0; i < 3; i++) for (int v = 0; v < 2; v++) ops.push_back({COPY_CELL, i, v});
         for (int p = 0; p < 4; p++) ops.push_back({APPEND, p, 0});
@@ -516,8 +562,8 @@ struct GraphSys {
                 if (o.a < 2) return fmt("rename_cell(name of cell_array[%d], \"%s\")", o.a, NEWNAME_()[o.b]);
                 return o.a == 2 ? fmt("rename_cell(name of rawcell_array[0], \"%s\")", NEWNAME_()[o.b]) : fmt("rename_cell(\"%s\", \"%s\")", absent_old_name(), NEWNAME_()[o.b]);
             case REPLACE: return "replace_cell(" + slot_name(o.a) + ", " + POOLNAME_()[o.b] + ")";
-            case REMAP_LIB: return fmt("Library::remap_tags(%s)", o.a ? "{(1,0)->(2,0),(2,0)->(1,0)}" : "{(1,0)->(2,0)}");
-            case REMAP_CELL: return fmt("cell_array[%d]->remap_tags(%s)", o.a, o.b ? "{(1,0)->(2,0),(2,0)->(1,0)}" : "{(1,0)->(2,0)}");
+            case REMAP_LIB: return "Library::remap_tags(table built by " + table_name(o.a) + ")";
+            case REMAP_CELL: return fmt("cell_array[%d]->remap_tags(table built by ", o.a) + table_name(o.b) + ")";
             case COPY_LIB: return fmt("Library::copy_from(deep=%d) -> explore the copy", o.a);
             case COPY_CELL: return fmt("Cell::copy_from(cell_array[%d], %s) then replace_cell(original, copy)", o.a, o.b ? "\"K1\", deep" : "NULL, shallow");
             case APPEND: return std::string(o.a < 2 ? "cell_array.append(" : "rawcell_array.append(") + POOLNAME_()[o.a] + ")";
@@ -1033,10 +1079,10 @@ struct GraphSys {
             case REMAP_CELL: {
                 int m = op.kind == REMAP_LIB ? op.a : op.b;
                 if (op.kind == REMAP_CELL && op.a >= (int)mc.size()) return false;
+                if (m >= 2 && init != 0 && init != 6) return false;  // history-built tables: two libraries only (budget)
                 if (dry) return true;
                 TagMap tm = {};
-                tm.set(T10, T20);
-                if (m == 1) tm.set(T20, T10);
+                build_table(m, tm);
                 if (op.kind == REMAP_LIB) {
                     lib->remap_tags(tm);
                     for (int id : w.mcells) for (auto& t : w.objs[id].tags) t = map_tag(m, t);
@@ -1264,6 +1310,7 @@ int main(int argc, char** argv) {
     Run run("C16", argc, argv);
     R = &run;
     set_error_logger(NULL);
+    find_colliding_tags();
     F_RAW12 = run.scratch + "/raw12.gds";
     F_RAW3 = run.scratch + "/raw3.gds";
     F_RAW32 = run.scratch + "/raw32.gds";
@@ -1296,6 +1343,8 @@ int main(int argc, char** argv) {
     int depth6 = T ? 4 : 2;  // init6 (prefix-related names): string-comparison slips show at depth 1-2; quick stays cheap
     if (getenv("C16_DEPTH")) depth = depth6 = atoi(getenv("C16_DEPTH"));
     if (getenv("C16_DEPTH6")) depth6 = atoi(getenv("C16_DEPTH6"));
+    run.note("colliding tags (home slot hash(Tag) % 8 from gdstk's own hash): TA=" + tagstr(TA) + fmt(" slot %d, TB=", (int)(hash(TA) % 8)) + tagstr(TB) + fmt(" slot %d, TC=", (int)(hash(TB) % 8)) + tagstr(TC) +
+             fmt(" slot %d; remap tables: ", (int)(hash(TC) % 8)) + table_name(0) + " " + table_name(1) + " " + table_name(2) + " " + table_name(3) + " (the last two in init0 and init6 only)");
     run.note(fmt("alphabet: %d operations per state (disabled ones are skipped); depth %d from each of 6 initial libraries, depth %d from the prefix-name library init6", GraphSys(0).nops(), depth, depth6));
     // Scheduling only (no effect on what a completed bound means): the searches run smallest first.
     // WEIGHT = measured relative cost of a depth-5 search (transitions, init5 = 1); one more level
